@@ -664,6 +664,7 @@ def mon_pacing(case, obs):
     the vertical-blank deadline advances by 1/60 s and only after it has passed."""
     toks, out, fin = duart_events(case, obs)
     n = min(len(toks), len(out))
+    stepped = any(t.split(':')[0] in ('run', 'st', 'sx') for t in toks)
     now = 0
     acr = 0
     last_snap = None
@@ -703,7 +704,8 @@ def mon_pacing(case, obs):
                             return 'op %d: channel %s received two characters %d ns apart, character time %d ns' % (
                                 i, 'AB'[ch], now - last_rx[ch][0], last_rx[ch][1])
                         last_rx[ch] = (now, p1['char_delay'])
-                if s['next_vblank'] != last_snap['next_vblank']:
+                if s['next_vblank'] != last_snap['next_vblank'] and not stepped:
+                    # (cases that step the processor advance the clock inside `run`: judged against the model only)
                     if not (now > last_snap['next_vblank'] and s['next_vblank'] == now + 16666666):
                         return 'op %d: vertical-blank deadline moved from %d to %d at time %d' % (
                             i, last_snap['next_vblank'], s['next_vblank'], now)
